@@ -181,7 +181,7 @@ func checkC12(c *Ctx) {
 	perTerm := ""
 	la := m.Locks()
 	for _, unit := range m.ClaimSet {
-		eachInstr(unit, func(in ssa.Instruction) {
+		m.eachUnitInstr(unit, func(in ssa.Instruction) {
 			if call, ok := in.(*ssa.Call); ok {
 				if fld, v, ok := m.atomicStore(call); ok && fld == m.HealthCounter {
 					if k, isC := constInt(v); isC && k == 0 && la.MustBefore(in)[m.implMuW()] {
